@@ -207,6 +207,14 @@ func trustedBase(w *World, o *Options) []string {
 	for _, k := range ks {
 		out = append(out, "assumed contract (dependency, not verified): "+k)
 	}
+	ks = nil
+	for k := range w.axiomsUsed {
+		ks = append(ks, k)
+	}
+	sort.Strings(ks)
+	for _, k := range ks {
+		out = append(out, "axiom (justified by the named ground obligation / audit): "+k)
+	}
 	for k, c := range w.cs.Funcs {
 		if c.Trusted != "" && contractCarries(c, o.property) {
 			out = append(out, "trusted in-repo function (contract used, body not verified): "+k+" -- "+c.Trusted)
